@@ -141,8 +141,26 @@ def fact_c18_guards():
         return SENTINEL_VALUE
 
 
+def fact_sim_cond_guard_first():
+    """simulate_statevector_outcomes: the guard on `inst.operation.condition_bits` is the FIRST statement of the body of the
+    loop over qc.data, i.e. it is evaluated for every instruction before any branch on the operation kind (the guard
+    text alone does not change when the guard is moved into one branch)."""
+    tree, _ = parse("utils/simulation.py")
+    fn = [node for name, node in _functions(tree) if name == "simulate_statevector_outcomes"]
+    if len(fn) != 1:
+        raise LookupError("simulate_statevector_outcomes not found")
+    loops = [st for st in fn[0].body if isinstance(st, ast.For) and ast.unparse(st.iter) == "qc.data"]
+    if len(loops) != 1:
+        raise LookupError("expected exactly one top-level loop over qc.data")
+    first = loops[0].body[0]
+    ok = (isinstance(first, ast.If) and ast.unparse(first.test) == "inst.operation.condition_bits"
+          and any(_is_value_error_raise(x) for x in first.body) and not first.orelse)
+    return "true" if ok else "false"
+
+
 FACTS = [
     ("c18_guards", "list (string * list string)", fact_c18_guards),
+    ("c18_sim_cond_guard_first", "bool", fact_sim_cond_guard_first),
 ]
 
 if __name__ == "__main__":
